@@ -348,3 +348,5 @@ def run(chk, facts, tier):
     _c19.sibling_delegates(chk, facts)
     from rules import shared_getters
     shared_getters.check(chk, facts, "C14.GETTER", ["cedar_policy_core::tpe::", "cedar_policy::api::tpe::"], 15)
+    from rules import shared_pipe
+    shared_pipe.check(chk, facts, "C14.PIPE", ["cedar_policy_core::tpe::is_authorized", "cedar_policy_core::tpe::policy_residual_map", "cedar_policy_core::tpe::response::Response::new", "cedar_policy_core::tpe::response::Response::reauthorize"], "every policy of the set / every residual")
